@@ -19,3 +19,11 @@ Definition agree_C11 (a b : out) : bool :=
   list_eqb (pair_eqb (pair_eqb N.eqb (list_eqb N.eqb)) (list_eqb N.eqb))
            (map proj_group_C11 (groups_of' a)) (map proj_group_C11 (groups_of' b))
   && list_eqb N.eqb (o_pl_groups a) (o_pl_groups b).
+
+(** C03 reads: per group the (binding, visibility) list, and the push constant stages *)
+Definition proj_group_C03 (g : out_group) : N * list (N * stages) :=
+  (og_no g, map (fun e => (oe_binding e, oe_vis e)) (og_entries g)).
+Definition agree_C03 (a b : out) : bool :=
+  list_eqb (pair_eqb N.eqb (list_eqb (pair_eqb N.eqb st_eqb)))
+           (map proj_group_C03 (groups_of' a)) (map proj_group_C03 (groups_of' b))
+  && option_eqb st_eqb (o_pc_stages a) (o_pc_stages b).
